@@ -394,6 +394,11 @@ class Contract:
 
 
 def _opaque_value(ex, ctx, tag, shape):
+    if shape == "URL":
+        # a fresh URL object: five unconstrained parts, empty memo
+        fields = {"_" + p: V.fresh_str(ctx, f"{tag}_{p}") for p in URL_PARTS}
+        fields["_cache"] = V.VDict({}, fresh=True)
+        return V.VObj("URL", fields, fresh=True)
     if shape == STR:
         return V.fresh_str(ctx, tag)
     if shape == INT:
